@@ -45,6 +45,7 @@ def run(ctx):
         ctx.guard("C05", "traits", lambda: vis.trait_census(ctx, prog, scope='core::fmt::Display for internals::hash|core::str::FromStr|for alloc::string::String'))
         ctx.guard("C05", "sym", lambda: eqord.len_index_symmetry(ctx, prog, scope=r"(store_into_bytes|insert_block_hash_into_bytes|len_in_str|::to_string|core::fmt::Display)", floor=2))
         ctx.guard("C05", "const values", lambda: data.const_census(ctx, prog, data.CONST_SCOPES["C05"], floor=1))
+        ctx.guard("C05", "panic conditions", lambda: beliefs.live_census(ctx, prog, beliefs.SCOPES["C05"][0]))
         ctx.guard("C05", "parser-init", lambda: parser.initial_values(ctx, prog))
         ctx.guard("C05", "run-counters", lambda: normal.run_counters(ctx, prog, ("parser",)))
         ctx.guard("C05", "summaries", lambda: summary.check(ctx, prog, '::to_string|alloc::string::String>::from|::len_in_str|core::fmt::Display', floor=1))
